@@ -1,7 +1,7 @@
 """C05 — PrivateKey::try_sign against Model/Ecdsa.v (+ Prim/Rfc6979.v), with k256's own verify/recover and an independent
 Python RFC 6979 ECDSA as third opinions."""
 from coqrun import ni, pb
-from gen import pyref
+from gen import prims, pyref
 from gen.util import SECP_N, lib_vs_model, rbytes, short
 
 NEEDS = dict(cli=True, harness=True, shim=False, release=False)
@@ -19,6 +19,7 @@ N = SECP_N
 
 def run(ctx):
     rng = ctx.rng
+    prims.check(ctx, ['hmac256', 'pubkey'])
     thorough = ctx.tier == "thorough"
     keys = [1, 2, 3, N - 2, N - 1] + [rng.randrange(1, N) for _ in range(6 if not thorough else 30)]
     digs = [0, 1, N - 1, N, N + 1, (1 << 256) - 1]
